@@ -334,6 +334,8 @@ struct Net {
 	dirty: Vec<HashSet<usize>>,
 	mgr_held: Vec<Vec<HashSet<usize>>>,
 	reest_seen: HashSet<(usize, usize)>,
+	/// how the next tampered commitment_signed is forged: (mode, index) -- see op `tamper_cs`
+	tamper_cs: Option<(u64, usize)>,
 	/// nodes whose user currently refuses payment events (handler returns ReplayEvent)
 	hold_events: Vec<bool>,
 	defer_drain: bool,
@@ -547,8 +549,18 @@ impl Net {
 						},
 						_ => {},
 					},
-					MessageSendEvent::BroadcastChannelUpdate { .. }
-					| MessageSendEvent::BroadcastChannelAnnouncement { .. }
+					MessageSendEvent::BroadcastChannelUpdate { msg, .. } => {
+						// what this node tells the network about one of its channels (bit 1 of channel_flags: disabled)
+						let scid = msg.contents.short_channel_id;
+						let key = self.scids.iter().find(|(_, v)| **v == scid).map(|(k, _)| *k);
+						if let Some(k) = key {
+							if let Some(cid) = self.chan_ids.get(&k).cloned() {
+								let c = self.chan(&cid);
+								self.ev(json!({"ev":"bcast_update","node":i,"chan":c,"enabled": msg.contents.channel_flags & 2 == 0}));
+							}
+						}
+					},
+					MessageSendEvent::BroadcastChannelAnnouncement { .. }
 					| MessageSendEvent::BroadcastNodeAnnouncement { .. }
 					| MessageSendEvent::SendChannelAnnouncement { .. } => {},
 					other => {
@@ -798,8 +810,17 @@ impl Net {
 	fn deliver_one(&mut self, from: usize, to: usize) -> bool { self.deliver_ext(from, to, false) }
 	fn deliver_ext(&mut self, from: usize, to: usize, tamper: bool) -> bool {
 		if tamper {
-			// only a revoke_and_ack at the head of the queue is tampered with (wrong secret)
-			match self.queues.get(&(from, to)).and_then(|q| q.front()) { Some(Wire::RAA(_)) => {}, _ => return false }
+			// only a revoke_and_ack (wrong secret) or a commitment_signed (forged signatures, see `tamper_cs`) at the
+			// head of the queue is tampered with
+			match self.queues.get(&(from, to)).and_then(|q| q.front()) {
+				Some(Wire::RAA(_)) => {},
+				Some(Wire::CS(m, _)) if self.tamper_cs.is_some() && m.len() == 1 => {
+					let (mode, _) = self.tamper_cs.unwrap();
+					// modes 1 (one HTLC signature) and 2 (all of them) need HTLC signatures; mode 3 (one dropped) too
+					if mode >= 1 && m[0].htlc_signatures.is_empty() { return false; }
+				},
+				_ => return false,
+			}
 		}
 		let mut w = match self.queues.get_mut(&(from, to)).and_then(|q| q.pop_front()) {
 			Some(w) => w,
@@ -815,6 +836,30 @@ impl Net {
 		let mut d = self.describe(&w);
 		d["tampered"] = json!(tamper);
 		if tamper { if let Wire::RAA(ref mut m) = w { m.per_commitment_secret[7] ^= 0x10; } }
+		if tamper {
+			if let Wire::CS(ref mut m, _) = w {
+				let (mode, idx) = self.tamper_cs.take().unwrap_or((0, 0));
+				// a well-formed signature that does not verify: the negated s of the original
+				let forge = |sig: &bitcoin::secp256k1::ecdsa::Signature| {
+					let mut c = sig.serialize_compact();
+					let mut k = 40;
+					loop {
+						c[k] ^= 0x01;
+						if let Ok(f) = bitcoin::secp256k1::ecdsa::Signature::from_compact(&c) { if f != *sig { break f; } }
+						k += 1;
+						if k >= 64 { break *sig; }
+					}
+				};
+				let n = m[0].htlc_signatures.len();
+				let what = match mode {
+					0 => { m[0].signature = forge(&m[0].signature); "commitment".to_string() },
+					1 => { let j = idx % n; m[0].htlc_signatures[j] = forge(&m[0].htlc_signatures[j]); format!("htlc {} of {}", j, n) },
+					2 => { for j in 0..n { m[0].htlc_signatures[j] = forge(&m[0].htlc_signatures[j]); } format!("all {} htlc", n) },
+					_ => { m[0].htlc_signatures.pop(); format!("dropped 1 of {}", n) },
+				};
+				d["forged"] = json!(what);
+			}
+		}
 		d["ev"] = json!("deliver");
 		d["from"] = json!(from);
 		d["to"] = json!(to);
@@ -959,7 +1004,7 @@ impl Net {
 		// (`snap`: index of the first manager snapshot of the payer that knows this payment)
 		let snap = self.mgr_snaps[src].len();
 		let rec = json!({"ev":"send","node":src,"dst":dst,"chan":c,"hash":h,"amt":amt,"first_amt":first_amt,"limit":limit,"min":min,"usable":usable,"snap":snap,
-			"result": if refused {"err"} else {"ok"}, "api_ok": api_ok});
+			"result": if refused {"err"} else {"ok"}, "api_ok": api_ok, "direct": nh == 1 && !intercept});
 		self.log.lock().unwrap().insert(mark, rec);
 		!refused
 	}
@@ -1106,6 +1151,24 @@ impl Net {
 					None => { did = false; },
 				}
 			},
+			"tamper_cs" => {
+				// the peer's commitment_signed arrives with a forged signature: mode 0 the commitment signature, 1 one
+				// HTLC signature (idx), 2 every HTLC signature, 3 one HTLC signature missing
+				let f = op["from"].as_u64().unwrap() as usize;
+				let t = op["to"].as_u64().unwrap() as usize;
+				let mode = op["mode"].as_u64().unwrap_or(0);
+				let idx = op["idx"].as_u64().unwrap_or(0) as usize;
+				let pos = self.queues.get(&(f, t)).and_then(|q| q.iter().position(|w| matches!(w, Wire::CS(_, _))));
+				match pos {
+					Some(p) => {
+						for _ in 0..p { self.deliver_one(f, t); }
+						self.tamper_cs = Some((mode, idx));
+						did = self.deliver_ext(f, t, true);
+						self.tamper_cs = None;
+					},
+					None => { did = false; },
+				}
+			},
 			"deliver_all" => {
 				let mut guard = 0;
 				loop {
@@ -1147,6 +1210,16 @@ impl Net {
 					// (253) so that a proposed rate is never below the receiver's own minimum, which
 					// LDK documents as a reason to close (PeerFeerateTooLow) -- see DESIGN.md assumptions
 					*self.cfgs[i].fee_estimator.sat_per_kw.lock().unwrap() = fr; self.feerate[i] = fr;
+					// ... but every node's idea of the HIGHEST plausible feerate follows the market: the dust-exposure limit
+					// (FeeRateMultiplier x ConfirmationTarget::MaximumFeeEstimate) and the fee excess counted as exposure must
+					// not be judged against a floor estimate while the funder proposes 40 times that (a receiver closes the
+					// channel on an update_fee that over-exposes it to dust; with consistent estimates the funder's own
+					// check in send_update_fee refuses first)
+					for j in 0..n {
+						let mut ov = self.cfgs[j].fee_estimator.target_override.lock().unwrap();
+						let cur = *ov.get(&lightning::chain::chaininterface::ConfirmationTarget::MaximumFeeEstimate).unwrap_or(&253);
+						ov.insert(lightning::chain::chaininterface::ConfirmationTarget::MaximumFeeEstimate, cur.max(fr));
+					}
 					self.ev(json!({"ev":"fee","node":i,"feerate":fr}));
 					self.nodes[i].node.timer_tick_occurred();
 					self.drain();
@@ -1621,6 +1694,20 @@ impl Net {
 			"dust" => rng.gen_range(min.max(1)..dust_sat * 1000),
 			"dust-edge" => dust_sat * 1000 + rng.gen_range(0..3) * 1000 - 1000,
 			"justabove" => dust_sat * 1000 + rng.gen_range(0..4_000_000),
+			// the real trimming thresholds of the first-hop channel at its current feerate: an HTLC is an output of a
+			// commitment iff amount >= dust limit + fee of its second-stage transaction (timeout: offered, success:
+			// received; zero on anchor channels); between the two thresholds it is an output of one side's commitment only
+			"thr-offered" | "thr-received" | "window" => {
+				let cdq = self.nodes[src].node.list_channels().into_iter().find(|c| c.channel_id == cid);
+				let (fr, anch) = cdq.map(|c| (c.feerate_sat_per_1000_weight.unwrap_or(253) as u64,
+					c.channel_type.as_ref().map(|t| t.supports_anchors_zero_fee_htlc_tx() || t.supports_anchor_zero_fee_commitments()).unwrap_or(false))).unwrap_or((253, false));
+				let (to, su) = if anch { (0, 0) } else { (fr * 663 / 1000, fr * 703 / 1000) };
+				match a.as_str().unwrap() {
+					"thr-offered" => (dust_sat + to) * 1000 + rng.gen_range(0..3) * 1000 - 1000,
+					"thr-received" => (dust_sat + su) * 1000 + rng.gen_range(0..3) * 1000 - 1000,
+					_ => rng.gen_range((dust_sat + to) * 1000..(dust_sat + su) * 1000 + 1),
+				}
+			},
 			"half" => limit / 2,
 			_ => { let hi = limit.max(min + 2); rng.gen_range(min.max(1)..hi.min(min.max(1) + 400_000_000).max(min.max(1) + 1)) },
 		}
@@ -1707,7 +1794,7 @@ fn build_net(run: u64, cfg: &Value, log: &Log) -> Net {
 	let mut net = Net {
 		nodes, cfgs, persisters, queues: HashMap::new(), connected, log: log.clone(), chans, hashes, points: Vec::new(),
 		pays: Vec::new(), scids, chan_ids, run, feerate: vec![feerate0; n], executed: 0, skipped: 0,
-		funding_txids: Vec::new(), extra_funding: Vec::new(), extra_broadcast: Vec::new(), mgr_snaps: vec![Vec::new(); n], mgr_clean: vec![Vec::new(); n], mgr_msgs: vec![Vec::new(); n], msgs_emitted: vec![0; n], mgr_evheld: vec![Vec::new(); n], mgr_writes: vec![Vec::new(); n], dirty: vec![HashSet::new(); n], mgr_held: vec![Vec::new(); n], reest_seen: HashSet::new(), hold_events: vec![false; n], defer_drain: false, intercepts: Vec::new(), intercept_next: HashMap::new(), batch_wait: None, hold_failed_only: vec![false; n], refused_logged: HashSet::new(), settling: false, sweepers: (0..n).map(|_| None).collect(), mempool: Vec::new(), spent: HashSet::new(), confirmed: HashSet::new(), saved_idx: vec![None; n], node_cfgs, txids, edges: edges.clone(),
+		funding_txids: Vec::new(), extra_funding: Vec::new(), extra_broadcast: Vec::new(), mgr_snaps: vec![Vec::new(); n], mgr_clean: vec![Vec::new(); n], mgr_msgs: vec![Vec::new(); n], msgs_emitted: vec![0; n], mgr_evheld: vec![Vec::new(); n], mgr_writes: vec![Vec::new(); n], dirty: vec![HashSet::new(); n], mgr_held: vec![Vec::new(); n], reest_seen: HashSet::new(), tamper_cs: None, hold_events: vec![false; n], defer_drain: false, intercepts: Vec::new(), intercept_next: HashMap::new(), batch_wait: None, hold_failed_only: vec![false; n], refused_logged: HashSet::new(), settling: false, sweepers: (0..n).map(|_| None).collect(), mempool: Vec::new(), spent: HashSet::new(), confirmed: HashSet::new(), saved_idx: vec![None; n], node_cfgs, txids, edges: edges.clone(),
 	};
 	for i in 0..n {
 		let _ = net.nodes[i].node.get_and_clear_needs_persistence();
@@ -1853,7 +1940,7 @@ fn random_script(rng: &mut StdRng, n: usize, profile: &str) -> Value {
 	let feerate = [253u32, 1000, 5000][rng.gen_range(0..3)];
 	let mut ops: Vec<Value> = Vec::new();
 	let steps = rng.gen_range(10..60);
-	let amts = ["big", "dust", "dust-edge", "justabove", "limit", "limit+1", "min", "min-1", "half"];
+	let amts = ["big", "dust", "dust-edge", "justabove", "limit", "limit+1", "min", "min-1", "half", "window", "thr-offered", "thr-received"];
 	let deferred = (profile == "async" || profile == "deferred") && (profile == "deferred" || rng.gen_bool(0.25));
 	let mut npay = 0usize;
 	let extra_at = if profile == "asyncopen" || (profile == "async" && rng.gen_bool(0.3)) { rng.gen_range(0..steps) } else { usize::MAX };
@@ -1873,7 +1960,8 @@ fn random_script(rng: &mut StdRng, n: usize, profile: &str) -> Value {
 			let src = rng.gen_range(0..n);
 			let mut dst = rng.gen_range(0..n);
 			if dst == src { dst = (src + 1) % n; }
-			let a = if profile == "limits" { amts[rng.gen_range(4..9)] } else { amts[rng.gen_range(0..amts.len())] };
+			let la = ["limit", "limit", "limit+1", "min", "min-1", "half", "window", "window", "thr-offered", "thr-received"];
+			let a = if profile == "limits" { la[rng.gen_range(0..la.len())] } else { amts[rng.gen_range(0..amts.len())] };
 			ops.push(json!({"op":"send","from":src,"to":dst,"amt":a}));
 			npay += 1;
 		} else if r < 60 {
@@ -1896,7 +1984,9 @@ fn random_script(rng: &mut StdRng, n: usize, profile: &str) -> Value {
 			ops.push(json!({"op":"reconnect","a":a,"b":a+1}));
 		} else if r < 97 && profile == "tamper" {
 			let a = rng.gen_range(0..n - 1);
-			if rng.gen_bool(0.5) { ops.push(json!({"op":"tamper_raa","from":a,"to":a+1})); } else { ops.push(json!({"op":"tamper_raa","from":a+1,"to":a})); }
+			let (f, t) = if rng.gen_bool(0.5) { (a, a + 1) } else { (a + 1, a) };
+			if rng.gen_bool(0.5) { ops.push(json!({"op":"tamper_raa","from":f,"to":t})); }
+			else { ops.push(json!({"op":"tamper_cs","from":f,"to":t,"mode":rng.gen_range(0..4),"idx":rng.gen_range(0..4)})); }
 		} else if r < 97 && (profile == "crash" || profile == "reload") {
 			let node = rng.gen_range(0..n);
 			if profile == "reload" || rng.gen_bool(0.3) { ops.push(json!({"op":"reload","node":node})); }
